@@ -123,6 +123,57 @@ func (f *File) Write(p []byte) (int, error) {
 }
 
 // Read implements io.Reader.
+// WriteAt / ReadAt / Sync / Truncate: the remaining *os.File methods a writer may reasonably use; a positional
+// write is subject to the same byte limit and does not move the offset.
+func (f *File) WriteAt(p []byte, off int64) (int, error) {
+	Current.WritesObserved++
+	if f.closed {
+		return 0, fs.ErrClosed
+	}
+	if off < 0 {
+		return 0, errInjected
+	}
+	n := len(p)
+	var err error
+	if Current.Limit >= 0 && off+int64(n) > Current.Limit {
+		n = int(Current.Limit - off)
+		if n < 0 {
+			n = 0
+		}
+		err = ErrNoSpace
+		Current.Fired["limit"]++
+	}
+	end := off + int64(n)
+	if int64(len(f.d.B)) < end {
+		f.d.B = append(f.d.B, make([]byte, end-int64(len(f.d.B)))...)
+	}
+	copy(f.d.B[off:end], p[:n])
+	return n, err
+}
+
+func (f *File) ReadAt(p []byte, off int64) (int, error) {
+	if off >= int64(len(f.d.B)) {
+		return 0, io.EOF
+	}
+	n := copy(p, f.d.B[off:])
+	if n < len(p) {
+		return n, io.EOF
+	}
+	return n, nil
+}
+
+func (f *File) Sync() error { return nil }
+
+func (f *File) Truncate(size int64) error {
+	if size < int64(len(f.d.B)) {
+		f.d.B = f.d.B[:size]
+	}
+	for int64(len(f.d.B)) < size {
+		f.d.B = append(f.d.B, 0)
+	}
+	return nil
+}
+
 func (f *File) Read(p []byte) (int, error) {
 	if f.pos >= int64(len(f.d.B)) {
 		return 0, io.EOF
